@@ -26,6 +26,13 @@ func strip(v ssa.Value) ssa.Value {
 			v = x.X
 		case *ssa.ChangeInterface:
 			v = x.X
+		case *ssa.Phi:
+			// the merge of an inlined helper's results, resolved to the value it has at its uses
+			if a := facts.ThreadedValue(x); a != ssa.Value(x) {
+				v = a
+				continue
+			}
+			return v
 		default:
 			return v
 		}
